@@ -247,8 +247,12 @@ def norm_mcb(c):
     if k == "rh" and n == "item":
         # [t, rh, item, assoc, ty, g, v, ix, val, fl, tm, tq, is_event]
         return {"t": t, "k": k, "n": n, "i": [c[3], c[5], c[6], c[7], c[9], 1 if c[12] else 0],
-                "s": "%s|%s|%s|%s" % (c[4], s(c[8]), s(c[10]), c[11])}
-    return norm_cb(c)
+                "s": "%s|%s|%s|%s" % (c[4], s(c[8]), s(c[10]), c[11]), "x": ""}
+    r = norm_cb(c)
+    r["x"] = ""
+    if k == "ai" and n == "task_fail" and ":" in r["s"]:
+        r["s"], r["x"] = r["s"].split(":", 1)
+    return r
 
 
 def body_class(r, f):
@@ -258,6 +262,18 @@ def body_class(r, f):
     if not f.get("wf", True):
         return "bad"
     return "data" if f.get("hdrs") else "empty"
+
+
+def poll_id(x):
+    """the scenarios give poll k of an association the k-th non-empty subset of the event classes: a READ of event
+    classes only identifies its poll"""
+    hs = x.get("hdrs", [])
+    if x.get("fc") == 1 and hs and all(h.get("g") == 60 and h.get("v") in (2, 3, 4) for h in hs):
+        mask = 0
+        for h in hs:
+            mask |= 1 << (h["v"] - 2)
+        return mask - 1
+    return -1
 
 
 def norm_mline(r, cfg):
@@ -273,7 +289,7 @@ def norm_mline(r, cfg):
                 "fin": bool(x.get("fin")), "con": bool(x.get("con")), "uns": bool(x.get("uns")),
                 "dst": x.get("dst", -1), "bid": x.get("bid", 0), "obid": x.get("obid", 0),
                 "nobj": len(x.get("objs", [])), "wf": bool(x.get("wf", True)),
-                "hdrs": [norm_hdr(h) for h in x.get("hdrs", [])]} for x in r.get("tx", [])]
+                "hdrs": [norm_hdr(h) for h in x.get("hdrs", [])], "pid": poll_id(x)} for x in r.get("tx", [])]
     e["ltx"] = [{"t": x["t"], "fn": x["fn"], "dst": x["dst"]} for x in r.get("ltx", [])]
     e["cb"] = [norm_mcb(c) for c in r.get("cb", [])]
     e["done"] = [{"t": d[0], "id": d[1] if isinstance(d[1], int) else -1, "res": s(d[2])} for d in r.get("done", [])]
